@@ -202,6 +202,19 @@ class HistGen:
         s.update(over)
         return s
 
+    def s_add_switch(self, **over):
+        r = self.rng
+        s = {'op': 'add_switch', 'name': self.fresh_name('sw'), 'site': r.choice(['S1', 'S4']), 'node_id': self.nid('sw'),
+             'nports': r.randrange(1, 4)}
+        if r.random() < 0.3:
+            s['nslabels'] = ['labels', {'vlan_range': '1-100'}]
+        if r.random() < 0.3:
+            s['portcapacities'] = ['cap', {'bw': 25}]
+        if r.random() < 0.2:
+            s['nstype'] = r.choice(['P4', 'OVS'])
+        s.update(over)
+        return s
+
     def s_add_node_service(self, v, **over):
         r = self.rng
         n = r.choice(v.net_nodes() + v.facilities())
@@ -237,7 +250,7 @@ class HistGen:
     def tested_call(self, v):
         """one call, valid (1/3) or with one injected fault; None if not applicable in this state"""
         r = self.rng
-        ops = ['add_node', 'add_service', 'add_service', 'add_facility']
+        ops = ['add_node', 'add_service', 'add_service', 'add_facility', 'add_switch']
         if v.net_nodes():
             ops += ['add_component', 'add_component', 'add_node_service']
         if self.svc_refs(v):
@@ -542,6 +555,43 @@ class HistGen:
                 s['pos'] = int(suffix[-1])
         return s
 
+    def f_add_switch(self, v, valid):
+        r = self.rng
+        if valid:
+            return self.s_add_switch()
+        faults = ['bad_name', 'late_bad_nslabels', 'late_bad_portlabels', 'late_ns_name_too_long']
+        if v.net_nodes() + v.facilities():
+            faults += ['dup_name'] * 2
+        if v.nodes:
+            faults += ['dup_id', 'late_derived_id_collision', 'late_derived_id_collision']
+        if self.sub:
+            faults += ['sub_no_id']
+        ft = r.choice(faults)
+        s = self.s_add_switch(fault=ft)
+        if ft == 'dup_name':
+            s['name'] = r.choice(v.net_nodes() + v.facilities())[2]
+        elif ft == 'bad_name':
+            s['name'] = self.bad_name(2)
+        elif ft == 'dup_id':
+            s['node_id'] = r.choice(list(v.nodes))
+        elif ft == 'sub_no_id':
+            s['node_id'] = None
+        elif ft == 'late_bad_nslabels':
+            s['nslabels'] = ['raw', 5]
+        elif ft == 'late_bad_portlabels':
+            s[r.choice(['portlabels', 'portcapacities'])] = ['raw', 'not-an-object']
+        elif ft == 'late_ns_name_too_long':
+            s['name'] = 'W' * r.choice([253, 254, 255])
+        elif ft == 'late_derived_id_collision':
+            base = 'swx-%d' % self.k
+            s['node_id'] = base
+            s['nports'] = 3
+            suffix = r.choice(['-ns', '-int1', '-int2', '-int3'])
+            self.do(self.s_add_node(node_id=base + suffix), False)
+            if suffix != '-ns':
+                s['pos'] = int(suffix[-1])
+        return s
+
     # ------------------------------------------------------------ the history
     def build_step(self, v):
         r = self.rng
@@ -552,6 +602,8 @@ class HistGen:
         if len(self.free_cps(v)) >= 1:
             choices += ['add_service'] * 3
         choices += ['add_facility']
+        if r.random() < 0.3:
+            choices += ['add_switch']
         if self.svc_refs(v) and r.random() < 0.3:
             choices += ['add_interface']
         if self.sub and len(v.of_class('ConnectionPoint')) >= 2:
@@ -572,6 +624,8 @@ class HistGen:
             return [self.s_add_service(v)]
         if c == 'add_facility':
             return [self.s_add_facility()]
+        if c == 'add_switch':
+            return [self.s_add_switch()]
         if c == 'add_interface':
             return [self.s_add_interface(v)]
         if c == 'add_link':
@@ -628,7 +682,7 @@ class HistGen:
 
 
 def generate(rng, tier, cache):
-    n_hist = 70 if tier == 'quick' else 1400
+    n_hist = 70 if tier == 'quick' else 900
     cases = []
     for h in range(n_hist):
         flavour = 'sub' if rng.random() < 0.3 else 'exp'
@@ -662,6 +716,7 @@ WITNESS_CASES = {
     'C09_add_link_atomic_refuted': 'link_stale_handle',
     'C09_add_component_atomic_refuted': 'component_same_child_ids',
     'C09_add_facility_atomic_refuted': 'facility_late_bad_ifname',
+    'C09_add_switch_atomic_refuted': 'switch_late_bad_portlabels',
 }
 
 
